@@ -3,6 +3,7 @@ package main
 import (
 	"os"
 
+	"verifharness/hist"
 	"verifharness/props"
 )
 
@@ -12,6 +13,7 @@ import (
 // records the path of the binary so that properties can re-execute it.
 func init() {
 	if len(os.Args) >= 2 && os.Args[1] == "-child-exec" {
+		hist.InitDone() // the child does its work from this init: the initialisation limit of hist/memwatch.go does not apply
 		os.Exit(props.ChildMain(os.Args[2:], os.Stdout))
 	}
 	if exe, err := os.Executable(); err == nil {
